@@ -14,8 +14,7 @@ pub fn gen_cnf(rng: &mut Rng, maxvars: usize, maxclauses: usize, allow_empty_cla
     let mut out = Vec::new();
     for _ in 0..nclauses {
         let len = match rng.below(20) {
-            0 if allow_empty_clause => 0,
-            1..=3 => 1,
+            0..=3 => 1,
             4..=10 => 2,
             11..=16 => 3,
             _ => 4,
@@ -34,6 +33,11 @@ pub fn gen_cnf(rng: &mut Rng, maxvars: usize, maxclauses: usize, allow_empty_cla
             c.push((v, if rng.coin() { p } else { !p }));
         }
         out.push(c);
+    }
+    // an empty clause in about one CNF out of ten
+    if allow_empty_clause && rng.chance(1, 10) {
+        let at = rng.below(out.len() as u64 + 1) as usize;
+        out.insert(at, Vec::new());
     }
     out
 }
